@@ -97,7 +97,7 @@ def single_case(g: Gen, sc: str, degenerate: str | None = None):
     return op, args
 
 
-def collection_case(g: Gen, sc: str, degen_rate=0.25):
+def collection_case(g: Gen, sc: str, degen_rate=0.25, mixed_scale=False):
     """a case whose arguments are collections (or a mix of single objects and collections)"""
     r = g.rng
     shape = g.free_shape() or (r.randint(1, 3),)
@@ -110,6 +110,14 @@ def collection_case(g: Gen, sc: str, degen_rate=0.25):
         per.append(single_case(g, sc, dg))
     op = per[0][0]
     nargs = len(per[0][1])
+    if mixed_scale and npos >= 2 and r.random() < 0.3:
+        # mixed magnitudes inside one collection: the representatives at one position carry a large homogeneous factor
+        # (a power of two: exact in binary floating point), the other positions stay at unit scale
+        # one argument by 2^20 or two arguments by 2^17 each: all integer intermediates stay far below 2^63
+        pos = r.randrange(npos)
+        which = r.sample(range(nargs), r.choice([1, 2]) if nargs >= 2 else 1)
+        lam = (2 ** 20 if len(which) == 1 else 2 ** 17) * r.choice([1, 1, -1])
+        per[pos] = (per[pos][0], [a.scaled(lam) if i in which else a for i, a in enumerate(per[pos][1])])
     args = []
     single_arg = r.randrange(nargs) if r.random() < 0.4 else None
     for k in range(nargs):
